@@ -34,6 +34,10 @@ def base_headers(rng, kind):
     if kind in ('request', 'push'):
         h = [(b':method', rng.choice([b'GET', b'POST', b'OPTIONS'])), (b':scheme', b'https'),
              (b':authority', rng.choice([b'example.com', b'a.test:8443'])), (b':path', rng.choice([b'/', b'/x?y=1', b'*']))]
+        if rng.random() < 0.08:
+            # RFC 8441 extended CONNECT: :protocol anywhere among the pseudo-header fields
+            h[0] = (b':method', b'CONNECT')
+            h.append((b':protocol', rng.choice([b'websocket', b'connect-udp'])))
         rng.shuffle(h)
     elif kind == 'response':
         h = [(b':status', rng.choice([b'200', b'404', b'100', b'103', b'500']))]
